@@ -257,6 +257,18 @@ func (g *G) genPnftGenesis(cdc codec.JSONCodec, lax bool) json.RawMessage {
 				Data: pick(g, "gen-tdata", []string{"", "x"}), Creator: owner("gen-token-creator", true), Owner: owner("gen-token-owner", false), CreatedAt: at})
 		}
 	}
+	if g.chance("gen-many-denoms", g.bias("big-listing", 15)) {
+		// more denoms than any default page size, the last ones holding tokens
+		n := 101 + g.intn("gen-many-n", 40)
+		for j := 0; j < n; j++ {
+			id := fmt.Sprintf("m%03d", j)
+			own := acct("gen-many-owner")
+			gs.Denoms = append(gs.Denoms, &pnfttypes.Denom{Id: id, Name: "n", Symbol: "S", Owner: own})
+			if j >= n-3 || g.chance("gen-many-token", 5) {
+				gs.Pnfts = append(gs.Pnfts, &pnfttypes.Pnft{DenomId: id, Id: "t", Name: "t", Creator: own, Owner: acct("gen-many-holder"), CreatedAt: created})
+			}
+		}
+	}
 	if g.chance("gen-big-holding", g.bias("big-listing", 15)) {
 		// one owner holds more tokens of one denom than any default page size
 		id := "big"
